@@ -13,8 +13,12 @@ EXPLANATION = (
     'buf[3 + kDigits10_64]; the digit and pad loops of Format64 are bounded by abstract unrolling '
     '(states partitioned by iteration count and cursor offset, no widening), so the longest '
     'conversions (int64 minimum with sign: 20, %E18S: 21) are computed, not assumed. C08-table: every '
-    'subscript of kDigits and kExp10 is in bounds. C08-tm: the narrowing of year-1900 into tm_year is '
-    'reached only for exactly the years whose difference fits an int, and FormatTM is never handed '
+    'subscript of kDigits, kExp10 and any other constant table is in bounds (pointer locals carry value '
+    'numbers, so equalities between cursors and the byte known to sit at a cursor survive a copy). '
+    'C08-tm: the narrowing of year-1900 into tm_year is '
+    'reached only for exactly the years whose difference fits an int (by must-facts where ToTM has the '
+    'three-way test; otherwise by abstract runs on the three partitions of the civil year: below, inside '
+    'and above the int range around 1900), and FormatTM is never handed '
     'an empty format. C08-escape: the specifier dispatch is reached only when the run of percent signs '
     'before it, counted from its first character, has odd length. C08-cursor: a finite typestate over the scan cursors shows no read or advance '
     'beyond the end of the format string. Assumes the documented precondition 0 <= fs < 1s, the '
